@@ -867,6 +867,12 @@ def call_method(interp, recv, name, args, kwargs):
                 _count_facts(interp, f, sep, t)
                 interp.st.assume(out.length == f(t) + 1)
             return out
+        if sep is None and isinstance(maxsplit, int) and maxsplit == -1 and aligning(interp):
+            # split at white space: a sequence of strings of unknown contents (weak model, sound)
+            from .api import ListOf, Str as _Str
+            out = ListOf(_Str).make(interp, 'wsplit')
+            interp.st.assume(z3.Implies(z3.Length(t) == 0, out.length == 0))
+            return out
         if sep is None or maxsplit != 1:
             raise Unsupported('str.%s without separator or with maxsplit != 1' % name)
         found, a, b = _split_once(interp, recv, sep, reverse=(name == 'rsplit'))
